@@ -579,8 +579,11 @@ def c30(ops):
 
 
 # ------------------------------------------------------------------ C36
-def c36(workflow, fail, x, flag_all):
-    from pydra.utils.messenger import AuditFlag
+def c36(workflow, fail, x, flag_all, file_messenger=False, fault=0):
+    """fault: 0 none, 1 Audit.audit_task raises, 2 Audit.monitor raises (both run between the start record and the body)"""
+    import json
+    import pydra.engine.audit as AU
+    from pydra.utils.messenger import AuditFlag, FileMessenger
     from pydra.engine.submitter import Submitter
     E.reset()
     R.clear()
@@ -588,44 +591,82 @@ def c36(workflow, fail, x, flag_all):
     R.FLAGS["fail"] = bool(fail)
     d = E.scratch()
     res = err = None
+    saved = (AU.Audit.audit_task, AU.Audit.monitor)
+
+    def boom(self, *a, **k):
+        raise RuntimeError("injected fault in the audit preamble")
+
+    if fault == 1:
+        AU.Audit.audit_task = boom
+    elif fault == 2:
+        AU.Audit.monitor = boom
+    per_dir = {}
     try:
         task = D.FlakyWf(x=x) if workflow else D.Flaky(x=x, tag=4)
-        try:
-            with Submitter(cache_root=d, worker="debug", audit_flags=AuditFlag.PROV, messengers=[D.ListMessenger()]) as sub:
-                res = sub(task, raise_errors=False)
-        except Exception as e:
-            err = e
+        import contextlib
+        from crosshair.tracers import NoTracing
+        # the resource monitor (RESOURCE flag) is a thread sampling psutil against time.time(), which CrossHair replaces by
+        # symbolic floats: the ALL-flag runs (all inputs already realised) execute outside the tracer
+        with (NoTracing() if flag_all and T.tracing() else contextlib.nullcontext()):
+            try:
+                with Submitter(cache_root=d, worker="debug", audit_flags=AuditFlag.ALL if flag_all else AuditFlag.PROV,
+                               messengers=[FileMessenger() if file_messenger else D.ListMessenger()]) as sub:
+                    res = sub(task, raise_errors=False)
+            except Exception as e:
+                err = e
         results = []
         for jd in job_dirs(d):
             r = load(d, jd)
             if r is not None:
                 results.append((jd, bool(r.errored)))
+            md = os.path.join(d, jd, "messages")
+            if file_messenger:
+                per_dir[jd] = []
+                for fn in (sorted(os.listdir(md)) if os.path.isdir(md) else []):
+                    with open(os.path.join(md, fn)) as fp:
+                        per_dir[jd].append(json.load(fp))
     finally:
+        AU.Audit.audit_task, AU.Audit.monitor = saved
         R.FLAGS["fail"] = False
         E.cleanup(d)
     T.reach()
-    msgs = list(R.MSGS)
-    by_id = {}
-    for m in msgs:
-        if "@id" in m:
-            by_id.setdefault(m["@id"], []).append(m)
-    acts = {k: v for k, v in by_id.items() if any("startedAtTime" in m or "endedAtTime" in m for m in v)}
-    desc = "%s fail=%s: %d messages" % ("workflow" if workflow else "task", fail, len(msgs))
-    n_exec = len(results)
-    if len(acts) != n_exec:
-        return "%s: %d audited activities for %d executed jobs (%s)" % (desc, len(acts), n_exec, results)
-    flags = []
-    for aid, ms in acts.items():
-        starts = [m for m in ms if "startedAtTime" in m]
-        ends = [m for m in ms if "endedAtTime" in m]
-        if len(starts) != 1 or len(ends) != 1:
-            return "%s: activity %s has %d start and %d end records" % (desc, aid, len(starts), len(ends))
-        if "errored" not in ends[0]:
-            return "%s: end record of %s carries no error flag" % (desc, aid)
-        flags.append(bool(ends[0]["errored"]))
-    if sorted(flags) != sorted(e for _, e in results):
-        return "%s: end-record error flags %s do not match the stored results %s" % (desc, sorted(flags), sorted(e for _, e in results))
-    return None
+    desc = "%s fail=%s%s%s%s" % ("workflow" if workflow else "task", fail, " ALL flags" if flag_all else "", " file messenger" if file_messenger else "",
+                               ["", ", audit_task raises", ", monitor raises"][fault])
+
+    def activities(msgs):
+        by_id = {}
+        for m in msgs:
+            if "@id" in m:
+                by_id.setdefault(m["@id"], []).append(m)
+        # the resource monitor (RESOURCE flag) has start/end records of its own, marked @type monitor / wasStartedBy / wasEndedBy:
+        # the property speaks about the job's records
+        return {k: v for k, v in by_id.items() if any("startedAtTime" in m or "endedAtTime" in m for m in v)
+                and not any(m.get("@type") == "monitor" or "wasStartedBy" in m or "wasEndedBy" in m for m in v)}
+
+    def judge(acts, results, where):
+        if len(acts) != len(results):
+            return "%s: %d audited activities%s for %d executed jobs (%s)" % (desc, len(acts), where, len(results), results)
+        flags = []
+        for aid, ms in acts.items():
+            starts = [m for m in ms if "startedAtTime" in m]
+            ends = [m for m in ms if "endedAtTime" in m]
+            if len(starts) != 1 or len(ends) != 1:
+                return "%s: activity %s%s has %d start and %d end records" % (desc, aid, where, len(starts), len(ends))
+            if "errored" not in ends[0]:
+                return "%s: end record of %s carries no error flag" % (desc, aid)
+            flags.append(bool(ends[0]["errored"]))
+        if sorted(flags) != sorted(e for _, e in results):
+            return "%s: end-record error flags %s%s do not match the stored results %s" % (desc, sorted(flags), where, sorted(e for _, e in results))
+        return None
+
+    if file_messenger:
+        # the default location of a file messenger is the job's own directory: each job's records are looked up there
+        for jd, e in results:
+            bad = judge(activities(per_dir.get(jd, [])), [(jd, e)], " in %s/messages" % jd[:14])
+            if bad:
+                return bad
+        return None
+    return judge(activities(list(R.MSGS)), results, "")
 
 
 def c13_opt(mode, x, again):
